@@ -14,3 +14,9 @@ package utils
 //@   trusted
 //@   tag ghost-pure
 //@   modifies nothing
+
+// C33: the LOCK file is unlinked only while the flock is still held.
+//@ func (*DirLock).Release
+//@   property C33
+//@   ensures [unlink-while-held] old(flockHeld) && !old(unlinkedWhileUnlocked) ==> !unlinkedWhileUnlocked
+//@   ensures [handle-cleared] l != nil ==> isnil(l.file)
